@@ -9,10 +9,40 @@ Run with `lake env lean --run Driver.lean < cases.jsonl`.
 
 open Lean (Json)
 
+/-- `header` of DriverLib plus the SPECIFICATION of the operator's dtype (`Op.dtypeSpec`: join of the
+leaf dtypes, Model/Dtype.lean) next to the code-model dtype -/
+def headerDt (A : Op GRat) : String :=
+  header A ++ s!",\"dtypeSpec\":\"{A.dtypeSpec.toString}\""
+
+/-- code-model and specification dtype of the array a product with an operand of dtype `xdt`
+returns; without an operand (`to_dense`, indexing) the operator's own dtype -/
+def resDt (A : Op GRat) (j : Json) : E String := do
+  match (j.getObjVal? "xdt").toOption with
+  | some x => do
+      let xdt ← jDt x
+      pure s!",\"resdt\":\"{(A.mmDtype xdt).toString}\",\"resdtSpec\":\"{(A.mmDtypeSpec xdt).toString}\""
+  | none => pure s!",\"resdt\":\"{A.dtype.toString}\",\"resdtSpec\":\"{A.dtypeSpec.toString}\""
+
+/-- `expr` cases (C03): code model `Ex.eval`, specification `Ex.meaning` for shape and entries,
+`Ex.dtypeSpec` for the dtype and `Ex.yieldsArr` for array-versus-operator -/
+def handleExprDt (j : Json) : E String := do
+  let id := (j.getObjVal? "id").toOption.getD .null
+  let e ← jEx ((j.getObjVal? "ex").toOption.getD .null)
+  let code := match e.eval (fun z => ⟨z.re, 0⟩) with
+    | .ok v => showVal v
+    | .error err => "{\"kind\":\"err\",\"value\":\"" ++ err ++ "\"}"
+  let spec := match e.meaning with
+    | some (r, c, m) => "{\"kind\":\"mat\",\"rows\":" ++ toString r ++ ",\"cols\":" ++ toString c
+        ++ ",\"dtype\":\"" ++ e.dtypeSpec.toString ++ "\",\"isarr\":" ++ toString e.yieldsArr
+        ++ ",\"value\":" ++ showMat r c (forceV r c m).f ++ "}"
+    | none => "{\"kind\":\"none\"}"
+  let cl := showStrs (e.clauses (fun z => ⟨z.re, 0⟩))
+  pure ("{\"id\":" ++ id.compress ++ ",\"wf\":true,\"clauses\":" ++ cl ++ ",\"code\":" ++ code ++ ",\"spec\":" ++ spec ++ "}")
+
 def handle (j : Json) : E String := do
   let id := (j.getObjVal? "id").toOption.getD .null
   let call ← jStr ((j.getObjVal? "call").toOption.getD .null)
-  if call == "expr" then return (← handleExpr j)
+  if call == "expr" then return (← handleExprDt j)
   if call == "kernel" then
     let km ← jMat ((j.getObjVal? "K").toOption.getD .null)
     let xm ← jMat ((j.getObjVal? "x").toOption.getD .null)
@@ -35,7 +65,7 @@ def handle (j : Json) : E String := do
       | none => "null"
     return "{\"id\":" ++ id.compress ++ ",\"res\":" ++ r ++ "}"
   let A ← jOp ((j.getObjVal? "op").toOption.getD .null)
-  let pre := s!"\"id\":{id.compress},{header A}"
+  let pre := s!"\"id\":{id.compress},{headerDt A}{← resDt A j}"
   match call with
   | "matmat" => do
       let xm ← jMat ((j.getObjVal? "x").toOption.getD .null)
@@ -65,7 +95,7 @@ def handle (j : Json) : E String := do
       let code := B.td.f
       let spec := (forceV B.rows B.cols (Op.towerDen A.den.f tw)).f
       let bound := maxAbsMat B.rows B.cols B.absOp.td.f
-      pure ("{" ++ pre ++ s!",\"rrows\":{B.rows},\"rcols\":{B.cols},\"rdtype\":\"{B.dtype.toString}\",\"ranns\":{showAnns B.anns},\"skel\":{skel B},\"code\":{showMat B.rows B.cols code},\"spec\":{showMat B.rows B.cols spec},\"absbound\":{bound}" ++ "}")
+      pure ("{" ++ pre ++ s!",\"rrows\":{B.rows},\"rcols\":{B.cols},\"rdtype\":\"{B.dtype.toString}\",\"rdtypeSpec\":\"{A.dtypeSpec.toString}\",\"ranns\":{showAnns B.anns},\"skel\":{skel B},\"code\":{showMat B.rows B.cols code},\"spec\":{showMat B.rows B.cols spec},\"absbound\":{bound}" ++ "}")
   | "getitem" => do
       let ids ← (← jArr ((j.getObjVal? "ids").toOption.getD .null)).toList.mapM jGIx
       let code := A.getitem ids
